@@ -342,7 +342,10 @@ theorem isNull_enc (hdr : TupleHeader) (data : Bytes) (bits : List Bool) (i : Na
   have hk : ((i : Int) + 1 - 1).toNat = i := by omega
   simp only [hk]
   unfold encBitmap
-  rw [List.getElem?_map, List.getElem?_range']
+  have hr : (List.range ((bits.length + 7) / 8))[i / 8]? =
+      if i / 8 < (bits.length + 7) / 8 then some (i / 8) else none := by
+    by_cases h : i / 8 < (bits.length + 7) / 8 <;> simp [h]
+  rw [List.getElem?_map, hr]
   by_cases hj : i / 8 < (bits.length + 7) / 8
   · simp only [hj, if_true, Option.map_some]
     have hlt : bitmapByte bits (i / 8) < 256 := by unfold bitmapByte; exact bits8_lt ..
@@ -372,9 +375,12 @@ theorem decodeCols_tail (dec : Dec) (t : HeapTuple) (mcols : List Column) (i off
   | nil => rfl
   | cons col cs ih =>
     simp only [decodeCols]
-    split
-    · rw [ih (i + 1) offset h]; rfl
-    · rw [chooseAlign_eq, if_neg (by intro ⟨_, h2, _⟩; omega)]
+    generalize (if col.num = 0 then (i : Int) + 1 else col.num) = num
+    by_cases hnl : t.isNull num = true
+    · rw [if_pos hnl, ih (i + 1) offset h]; rfl
+    · have hc : ¬ (col.len = -1 ∧ offset < t.data.length ∧ t.data[offset]?.getD 0 ≠ 0) := by
+        intro ⟨_, h2, _⟩; omega
+      rw [if_neg hnl, chooseAlign_eq, if_neg hc]
       simp only [ok_bind]
       have hge := align_ge offset (colAlign col)
       rw [readValue_beyond dec t.data _ _ _ (by omega)]
@@ -457,7 +463,6 @@ theorem decodeCols_form (dec : Dec) (t : HeapTuple) (nullAt : Nat → Bool)
       cases v with
       | none =>
         have h1 : nullAt i = true := by simpa using hn0
-        simp only [Nat.add_zero] at h1
         rw [if_pos h1]
         have hdata' : t.data = pre ++ form (cs.take k) (vs.take k) pre.length := by
           rw [hdata]; simp [form]
